@@ -1266,4 +1266,73 @@ theorem robustFactors_pos (fs : List Rat) (hr : robustFactors fs = true) : 0 < f
 example : robustFactors [1 / 2, 4 * tailLo] = true := by decide +kernel
 example : robustFactors [50, tailLo / 64] = false := by decide +kernel
 
+/-! ### numpy's own modes as windows of the ordinary convolution; commutativity -/
+
+/-- numpy's `valid` mode (what pad mode runs on the padded signal) is a window of the ordinary convolution:
+entry `k` is entry `k + m − 1` of the full convolution, for every `k ≤ n − m` -/
+theorem convValidGe_entry (a v : List Rat) (hv : v ≠ []) (k : Nat) (hk : k + v.length ≤ a.length) :
+    at0 (convValidGe a v) k = fullConvAt a v (k + v.length - 1) := by
+  have hm : 0 < v.length := List.length_pos_iff.mpr hv
+  unfold convValidGe
+  rw [at0_of_lt _ _ (by simp; omega)]
+  simp only [List.getElem_map, List.getElem_range]
+  unfold fullConvAt
+  congr 1
+  apply List.map_congr_left
+  intro j hj
+  have hj' : j < v.length := List.mem_range.mp hj
+  rw [if_pos (by omega)]
+
+theorem convValidGe_eq_full (a v : List Rat) (hv : v ≠ []) (h : v.length ≤ a.length) :
+    convValidGe a v = ((fullConv a v).drop (v.length - 1)).take (a.length + 1 - v.length) := by
+  have hm : 0 < v.length := List.length_pos_iff.mpr hv
+  apply List.ext_getElem
+  · simp [convValidGe, fullConv]; omega
+  · intro k h1 h2
+    have hk : k < a.length + 1 - v.length := by simpa [convValidGe] using h1
+    rw [← at0_of_lt _ _ h1, convValidGe_entry a v hv k (by omega)]
+    simp only [List.getElem_take, List.getElem_drop, fullConv, List.getElem_map, List.getElem_range]
+    congr 1; omega
+
+example : convValidGe [1, 2, 3, 4] [1, 1] = [3, 5, 7] := by decide +kernel
+example : fullConv [1, 2, 3, 4] [1, 1] = [1, 3, 5, 7, 4] := by decide +kernel
+
+/-- convolution is commutative: signal and kernel may be exchanged (what numpy does when the second argument is
+the longer one) -/
+theorem fullConvAt_comm (x psf : List Rat) (t : Nat) : fullConvAt x psf t = fullConvAt psf x t := by
+  rw [fullConvAt_eq_range, fullConvAt_eq_range]
+  have := sum_range_reflect_list (fun j => at0 x j * at0 psf (t - j)) (t + 1)
+  rw [← this]
+  congr 1
+  apply List.map_congr_left
+  intro j hj
+  have hj' : j < t + 1 := List.mem_range.mp hj
+  have e : t + 1 - 1 - j = t - j := by omega
+  have e2 : t - (t - j) = j := by omega
+  simp only [e, e2]
+  ring
+
+theorem fullConv_comm (x psf : List Rat) : fullConv x psf = fullConv psf x := by
+  unfold fullConv
+  rw [Nat.add_comm psf.length x.length]
+  apply List.map_congr_left
+  intro t _
+  exact fullConvAt_comm x psf t
+
+example : fullConv [1, 2, 3] [1, 1] = fullConv [1, 1] [1, 2, 3] := fullConv_comm _ _
+
+/-- numpy's `valid` mode for ANY two non-empty arrays (the longer one is taken as the signal): the window of the
+ordinary convolution in which the shorter array lies completely inside the longer one -/
+theorem convValid_eq_full (a v : List Rat) (ha : a ≠ []) (hv : v ≠ []) :
+    convValid a v = ((fullConv a v).drop (min a.length v.length - 1)).take
+      (max a.length v.length + 1 - min a.length v.length) := by
+  unfold convValid
+  split
+  · rename_i h
+    rw [convValidGe_eq_full v a ha (by omega), fullConv_comm v a, Nat.min_eq_left (by omega), Nat.max_eq_right (by omega)]
+  · rename_i h
+    rw [convValidGe_eq_full a v hv (by omega), Nat.min_eq_right (by omega), Nat.max_eq_left (by omega)]
+
+example : convValid [1, 1] [1, 2, 3, 4] = [3, 5, 7] := by decide +kernel
+
 end Pew.Convolve
